@@ -259,7 +259,7 @@ def mutants(mb):
     C = "apischema/deserialization/coercion.py"
     M = "apischema/deserialization/methods.py"
     mb.add_text("identity-after-bool", C, "    elif isinstance(data, cls):\n        return data\n    elif cls is bool:", "    elif cls is bool and not isinstance(data, bool):", "C14.R1", "coerce")
-    mb.add_text("list-branch", C, "    elif cls is str:\n        if isinstance(data, (int, float))", "    elif cls is list:\n        return [data]  # type: ignore\n    elif cls is str:\n        if isinstance(data, (int, float))", "C14.R2", "branches")
+    mb.add_text("list-branch", C, "    elif cls is str:\n        if isinstance(data, (int, float))", "    elif cls is list:\n        return [data]  # type: ignore\n    elif cls is str:\n        if isinstance(data, (int, float))", "C14.R2", "coerce")
     mb.add_text("else-returns", C, "    else:\n        raise bad_type(data, cls)\n\n\nCoerce", "    else:\n        return data\n\n\nCoerce", "C14.R2", "else")
     mb.add_text("str-from-bool", C, "        if isinstance(data, (int, float)) and not isinstance(data, bool):\n            try:", "        if isinstance(data, (int, float)):\n            try:", "C14.R2", "str")
     mb.add_text("none-branch-negated", C, "if data is None or (isinstance(data, str) and data in STR_NONE_VALUES):", "if data is not None or (isinstance(data, str) and data in STR_NONE_VALUES):", "C14.R2", "NoneType")
